@@ -142,7 +142,7 @@ Proof.
 Qed.
 
 (* ------------------------------------------------------------------ read_escape never moves backwards *)
-Lemma read_escape_ge ch i ln ls p0 piece i2 ln' ls' es :
+Lemma read_escape_ge {fx : FxEscape} ch i ln ls p0 piece i2 ln' ls' es :
   read_escape ch i ln ls p0 = (piece, i2, ln', ls', es) -> (i <= i2)%nat.
 Proof.
   unfold read_escape. destruct (nth_byte ch i) as [c|]; [|intros H; injection H as <- <- <- <- <-; lia].
@@ -172,6 +172,7 @@ Proof.
 Qed.
 
 Section WithOracle.
+  Context {fx : FxEscape}.
   Variable gbk_runes : list N -> Z.
 
   (* ---------------------------------------------------------------- scan_short_f : caller passes [S (length ch)], i = 1 *)
